@@ -26,11 +26,11 @@ type single struct {
 	Path   string `json:"path"`
 	Prefix string `json:"prefix"`
 	// Extra: File settings that have nothing to do with the package: "" | preamble | noformat |
-	// preamble+noformat | canonical | anon | comments | preamble+anon
+	// preamble+noformat | canonical | anon | comments | preamble+anon | anonself (Anon of the package itself)
 	Extra string `json:"extra,omitempty"`
 }
 
-var extras = []string{"preamble", "noformat", "preamble+noformat", "canonical", "anon", "comments", "preamble+anon"}
+var extras = []string{"preamble", "noformat", "preamble+noformat", "canonical", "anon", "comments", "preamble+anon", "anonself"}
 
 func extraOps(extra string) []recipe.FileOp {
 	var ops []recipe.FileOp
@@ -58,6 +58,10 @@ func (c single) scenario() imps.Scenario {
 		sc.File.Ops = append(sc.File.Ops, recipe.FileOp{Op: "PackagePrefix", Args: []recipe.Text{recipe.Text(c.Prefix)}})
 	}
 	sc.File.Ops = append(sc.File.Ops, extraOps(c.Extra)...)
+	if c.Extra == "anonself" {
+		// the package is first asked for as a blank import (for its side effects) and then referenced as well
+		sc.File.Ops = append(sc.File.Ops, recipe.FileOp{Op: "Anon", Args: []recipe.Text{recipe.Text(c.Path)}})
+	}
 	sc.File.Body = []*recipe.Node{
 		recipe.S().C("Var").C("Id", "_").C("Op", "=").Add(recipe.Qual(c.Path, "S0")),
 		recipe.S().C("Var").C("Id", "_").Add(recipe.Qual(c.Path, "T0")),
@@ -212,6 +216,11 @@ func TestC18(t *testing.T) {
 		}
 		collide := false
 		n := rapid.IntRange(1, 10).Draw(rt, "n")
+		if rapid.IntRange(0, 5).Draw(rt, "many") == 0 {
+			// a File with many imports, the colliding groups somewhere among them
+			n = rapid.IntRange(18, 60).Draw(rt, "nmany")
+			r.Class("sets_of_18_or_more")
+		}
 		for len(sc.Paths) < n {
 			switch rapid.IntRange(0, 3).Draw(rt, "kind") {
 			case 0: // a colliding group
@@ -245,6 +254,9 @@ func TestC18(t *testing.T) {
 		if rapid.IntRange(0, 2).Draw(rt, "extra") == 0 {
 			x := rapid.SampledFrom(extras).Draw(rt, "extrakind")
 			sc.File.Ops = append(sc.File.Ops, extraOps(x)...)
+			if x == "anonself" {
+				sc.File.Ops = append(sc.File.Ops, recipe.FileOp{Op: "Anon", Args: []recipe.Text{recipe.Text(rapid.SampledFrom(sc.Paths).Draw(rt, "anonself"))}})
+			}
 			r.Class("sets_with_setting:" + x)
 		}
 		sc.Paths = rapid.Permutation(sc.Paths).Draw(rt, "order")
